@@ -33,7 +33,9 @@ echo "baseline with change: $base"
 cd /; git -C /repo worktree remove --force $S
 # run the checks against the change in /repo
 results=""
+exec 9>/var/tmp/repo.lock; flock 9       # the part that modifies /repo's working tree is serialised
 if $applies; then
+  rm -rf /var/tmp/evidence.keep.$id; cp -r /verif/evidence /var/tmp/evidence.keep.$id     # evidence must describe the unchanged tree
   git -C /repo apply $d/patch.diff
   for c in "$@"; do
     cd /verif; out=$(./check $c 2>&1 | grep -v "Syntax\|template = " | tail -4); rc=$?
@@ -43,6 +45,7 @@ if $applies; then
     for r in $(echo "$out" | grep "^VIOLATION" | sed 's/.*replay=\([^ ]*\).*/\1/' | head -1); do cp /verif/$r $d/replay_$c.json 2>/dev/null; done
   done
   git -C /repo checkout -- .
+  rm -rf /verif/evidence; mv /var/tmp/evidence.keep.$id /verif/evidence
 fi
 /venv/bin/python - <<PY
 import json, os
